@@ -17,7 +17,11 @@ fn block_types() -> Vec<(Vec<T>, Vec<T>)> {
     vec![(vec![T::I32], vec![T::I32]), (vec![T::I32, T::I32], vec![T::I32]), (vec![], vec![T::I32, T::I64]), (vec![T::I64], vec![T::I32]), (vec![T::I32], vec![])]
 }
 
-struct G<'a> { r: &'a mut Rng, params: Vec<T>, locals: Vec<T>, n_counters: usize, counters_used: usize, results: Vec<T>, btys: Vec<(Vec<T>, Vec<T>)>, budget: usize, dead_ops: usize, n_loops: usize, n_br: usize, ext: bool, n_mem: usize, sabotage_at: Option<usize>, sabotaged: Option<&'static str> }
+struct G<'a> { r: &'a mut Rng, params: Vec<T>, locals: Vec<T>, n_counters: usize, counters_used: usize, results: Vec<T>, btys: Vec<(Vec<T>, Vec<T>)>, budget: usize, dead_ops: usize, n_loops: usize, n_br: usize, ext: bool, n_mem: usize, sabotage_at: Option<usize>, sabotaged: Option<&'static str>,
+    /// index of the first block type in the type section; functions that may be called (index, params, results); signatures for call_indirect (type index = position); table length
+    bt_base: u32, callees: Vec<(u32, Vec<T>, Vec<T>)>, sigs: Vec<(Vec<T>, Vec<T>)>, table_len: u32, n_calls: usize, self_idx: Option<u32>,
+    /// for every table slot: the type index of the function stored there (callable lower-numbered functions only), for mostly-matching call_indirect
+    slot_types: Vec<Option<usize>> }
 #[derive(Clone)]
 struct Label { tys: Vec<T>, is_loop: bool }
 
@@ -54,7 +58,7 @@ impl<'a> G<'a> {
                 let cands: Vec<usize> = (0..self.btys.len()).filter(|k| { let p = &self.btys[*k].0; st.len() >= p.len() && st[st.len() - p.len()..] == p[..] }).collect();
                 if cands.is_empty() { return (we::BlockType::Empty, "BT_Empty".into(), vec![], vec![]); }
                 let k = *self.r.pick(&cands); let (p, q) = self.btys[k].clone();
-                (we::BlockType::FunctionType(k as u32 + 1), format!("(BT_Func {})", k + 1), p, q) }
+                (we::BlockType::FunctionType(k as u32 + self.bt_base), format!("(BT_Func {})", k as u32 + self.bt_base), p, q) }
         }
     }
     /// bring the block-local stack `st` to exactly `want`
@@ -97,7 +101,7 @@ impl<'a> G<'a> {
                 }
             }
             let top = st.last().cloned(); let top2 = if st.len() >= 2 { Some(st[st.len() - 2]) } else { None };
-            match self.r.below(if self.ext { 33 } else { 26 }) {
+            match self.r.below(if !self.sigs.is_empty() { 38 } else if self.ext { 33 } else { 26 }) {
                 0..=3 => { let t = if self.r.chance(3, 4) { T::I32 } else { T::I64 }; self.push_val(&mut o, t); st.push(t); }
                 4..=6 if top.is_some() && top == top2 => { let t = top.unwrap();
                     if t == T::I32 { let tab: [(I, &str); 25] = [(I::I32Add, "W_I32Add"), (I::I32Sub, "W_I32Sub"), (I::I32Mul, "W_I32Mul"), (I::I32And, "W_I32And"), (I::I32Or, "W_I32Or"), (I::I32Xor, "W_I32Xor"),
@@ -126,10 +130,11 @@ impl<'a> G<'a> {
                     let inner0: Vec<T> = ps.clone();
                     for _ in 0..ps.len() { st.pop(); }
                     labels.push(Label { tys: rs.clone(), is_loop: false });
-                    let th = self.seq(labels, inner0.clone(), &rs, depth + 1);
+                    let empty_then = is_if && ps == rs && self.r.chance(1, 6);
+                    let th = if empty_then { Out::new() } else { self.seq(labels, inner0.clone(), &rs, depth + 1) };
                     if is_if {
                         // an else-less `if` needs params = results
-                        let with_else = ps != rs || self.r.chance(2, 3);
+                        let with_else = empty_then || ps != rs || self.r.chance(2, 3);
                         o.w.push(I::If(wbt)); o.w.extend(th.w);
                         if with_else { let el = self.seq(labels, inner0, &rs, depth + 1); o.w.push(I::Else); o.w.extend(el.w); o.w.push(I::End);
                             o.c.push(format!("RIf {} [{}] (Some (0, [{}])) 0 0", cbt, th.c.join("; "), el.c.join("; "))); }
@@ -143,7 +148,7 @@ impl<'a> G<'a> {
                     o.op(I::I32Const(k), &format!("W_I32Const ({})%Z", k)); o.op(I::LocalSet(cnt), &format!("W_LocalSet {}", cnt));
                     // loop type: empty, or [i32] -> [i32] when an i32 is on top
                     let with_param = top == Some(T::I32) && self.r.chance(1, 2);
-                    let (wbt, cbt, ps, rs) = if with_param { (we::BlockType::FunctionType(1), "(BT_Func 1)".to_string(), vec![T::I32], vec![T::I32]) } else { (we::BlockType::Empty, "BT_Empty".to_string(), vec![], vec![]) };
+                    let (wbt, cbt, ps, rs) = if with_param { (we::BlockType::FunctionType(self.bt_base), format!("(BT_Func {})", self.bt_base), vec![T::I32], vec![T::I32]) } else { (we::BlockType::Empty, "BT_Empty".to_string(), vec![], vec![]) };
                     for _ in 0..ps.len() { st.pop(); }
                     labels.push(Label { tys: ps.clone(), is_loop: true });
                     let mut body = self.seq(labels, ps.clone(), &ps, depth + 1);
@@ -199,6 +204,26 @@ impl<'a> G<'a> {
                     let (i, c): (I, &str) = if t == T::I32 { match self.r.below(4) { 0 => (I::I32DivS, "W_I32DivS"), 1 => (I::I32DivU, "W_I32DivU"), 2 => (I::I32RemS, "W_I32RemS"), _ => (I::I32RemU, "W_I32RemU") } }
                         else { match self.r.below(4) { 0 => (I::I64DivS, "W_I64DivS"), 1 => (I::I64DivU, "W_I64DivU"), 2 => (I::I64RemS, "W_I64RemS"), _ => (I::I64RemU, "W_I64RemU") } };
                     o.op(i, c); st.push(t); }
+                33 | 34 if !self.callees.is_empty() => { // a direct call: arguments pushed, results on the stack
+                    let (fi, ps, rs) = self.r.pick(&self.callees.clone()).clone();
+                    for t in &ps { self.push_val(&mut o, *t); }
+                    o.op(I::Call(fi), &format!("W_Call {}", fi)); st.extend(rs); self.n_calls += 1; }
+                35 if self.self_idx.is_some() && self.params.first() == Some(&T::I32) && depth < 3 => { // bounded self-recursion: `if (p0 & 3) then call self (p0 & 3) - 1, other params ... end`
+                    let me = self.self_idx.unwrap(); let ps = self.params.clone(); let rs = self.results.clone();
+                    let mut b = Out::new();
+                    b.op(I::LocalGet(0), "W_LocalGet 0"); b.op(I::I32Const(3), "W_I32Const (3)%Z"); b.op(I::I32And, "W_I32And"); b.op(I::I32Const(1), "W_I32Const (1)%Z"); b.op(I::I32Sub, "W_I32Sub");
+                    for t in &ps[1..] { self.push_val(&mut b, *t); }
+                    b.op(I::Call(me), &format!("W_Call {}", me)); for _ in 0..rs.len() { b.op(I::Drop, "W_Drop"); }
+                    o.op(I::LocalGet(0), "W_LocalGet 0"); o.op(I::I32Const(3), "W_I32Const (3)%Z"); o.op(I::I32And, "W_I32And");
+                    o.w.push(I::If(we::BlockType::Empty)); o.w.extend(b.w); o.w.push(I::End); o.c.push(format!("RIf BT_Empty [{}] None 0 0", b.c.join("; "))); self.n_calls += 1; }
+                36 | 37 if self.table_len > 0 => { // call_indirect: arguments, then the table index (in range, sometimes the first index out of range)
+                    // mostly a slot holding a callable function of the chosen type; sometimes any slot (signature mismatch / empty slot) or the first index out of range
+                    let good: Vec<(usize, usize)> = self.slot_types.iter().enumerate().filter_map(|(i, t)| t.map(|t| (i, t))).collect();
+                    let (ti, idx) = if !good.is_empty() && self.r.chance(4, 5) { let (i, t) = *self.r.pick(&good); (t, i as i32) } else if self.r.chance(1, 4) { (self.r.usize(self.sigs.len()), self.table_len as i32) } else { (self.r.usize(self.sigs.len()), self.r.usize(self.table_len as usize) as i32) };
+                    let (ps, rs) = self.sigs[ti].clone();
+                    for t in &ps { self.push_val(&mut o, *t); }
+                    o.op(I::I32Const(idx), &format!("W_I32Const ({})%Z", idx));
+                    o.op(I::CallIndirect { type_index: ti as u32, table_index: 0 }, &format!("W_CallIndirect {} 0", ti)); st.extend(rs); self.n_calls += 1; }
                 22 | 23 => { // directed: an OUTER value, then a block that branches to its own end with surplus values above the label height, then an
                     // operator that consumes the outer value together with the block's result (a machine that does not unwind gets this wrong)
                     self.push_val(&mut o, T::I32); 
@@ -237,7 +262,7 @@ pub fn gen_main(args: &[String]) {
         let locals: Vec<T> = vec![T::I32, T::I64, T::I32, T::I64, T::I32, T::I32, T::I32];   // the last three are loop counters
         let btys = block_types();
         let r_sab = r.chance(2, 3); let sab_at = 59 - r.usize(7);
-        let mut g = G { r: &mut r, params: params.clone(), locals: locals.clone(), n_counters, counters_used: 0, results: results.clone(), btys: btys.clone(), budget: 60, dead_ops: 0, n_loops: 0, n_br: 0, ext, n_mem: 0, sabotage_at: if sabotage && r_sab { Some(sab_at) } else { None }, sabotaged: None };
+        let mut g = G { r: &mut r, params: params.clone(), locals: locals.clone(), n_counters, counters_used: 0, results: results.clone(), btys: btys.clone(), budget: 60, dead_ops: 0, n_loops: 0, n_br: 0, ext, n_mem: 0, sabotage_at: if sabotage && r_sab { Some(sab_at) } else { None }, sabotaged: None, bt_base: 1, callees: vec![], sigs: vec![], table_len: 0, n_calls: 0, self_idx: None, slot_types: vec![] };
         let mut labels = vec![Label { tys: results.clone(), is_loop: false }];
         let body = g.seq(&mut labels, vec![], &results, 0);
         let sabotaged = g.sabotaged;
@@ -285,4 +310,63 @@ pub fn gen_main(args: &[String]) {
             ("tys", Json::s(tys_coq)), ("body", Json::s(format!("[{}]", body.c.join("; "))))]));
     }
     std::fs::write(format!("{}/index.json", dir), Json::obj(vec![("cases", Json::Arr(index)), ("operators", Json::u(n_ops)), ("loops", Json::u(n_loops)), ("branches", Json::u(n_br)), ("dead_ops", Json::u(n_dead)), ("memory_ops", Json::u(n_mem)), ("walrus_failures", Json::u(n_panics))]).to_string()).unwrap();
+}
+
+/// Modules of several functions over the core operators WITH calls: direct calls to lower-numbered functions, bounded self-recursion, call_indirect through a
+/// table that lists every function (in a shuffled order, one slot left empty), one memory, two globals.  Function k may call functions < k, so every call terminates.
+pub fn gen_mod_main(args: &[String]) {
+    let dir = &args[0]; let seed: u64 = args[1].parse().unwrap(); let n: usize = args[2].parse().unwrap();
+    std::fs::create_dir_all(dir).unwrap();
+    let mut r = Rng::new(seed ^ 0xCA115);
+    let mut index = vec![]; let (mut n_ops, mut n_calls, mut n_funcs, mut n_fail) = (0usize, 0usize, 0usize, 0usize);
+    let sigs: Vec<(Vec<T>, Vec<T>)> = vec![(vec![T::I32], vec![T::I32]), (vec![], vec![T::I32]), (vec![T::I32, T::I64], vec![T::I64]), (vec![T::I32], vec![]), (vec![T::I64], vec![T::I32, T::I64])];
+    let btys = block_types(); let bt_base = sigs.len() as u32;
+    let locals: Vec<T> = vec![T::I32, T::I64, T::I32, T::I64, T::I32, T::I32, T::I32];
+    for k in 0..n {
+        let nf = 2 + r.usize(4);
+        let ftys: Vec<usize> = (0..nf).map(|_| r.usize(sigs.len())).collect();
+        // the table: every function once, shuffled, plus one empty slot at the end
+        let mut order: Vec<u32> = (0..nf as u32).collect(); for i in (1..order.len()).rev() { let j = r.usize(i + 1); order.swap(i, j); }
+        let table_len = nf as u32 + 1;
+        let mut bodies = vec![]; let mut coq_funcs = vec![];
+        for fi in 0..nf { let (ps, rs) = sigs[ftys[fi]].clone();
+            let callees: Vec<(u32, Vec<T>, Vec<T>)> = (0..fi).map(|j| (j as u32, sigs[ftys[j]].0.clone(), sigs[ftys[j]].1.clone())).collect();
+            let mut g = G { r: &mut r, params: ps.clone(), locals: locals.clone(), n_counters: 3, counters_used: 0, results: rs.clone(), btys: btys.clone(), budget: 40, dead_ops: 0, n_loops: 0, n_br: 0, ext: true, n_mem: 0, sabotage_at: None, sabotaged: None,
+                bt_base, callees, sigs: sigs.clone(), table_len, n_calls: 0, self_idx: Some(fi as u32),
+                slot_types: order.iter().map(|f| if (*f as usize) < fi { Some(ftys[*f as usize]) } else { None }).chain(std::iter::once(None)).collect() };
+            let mut labels = vec![Label { tys: rs.clone(), is_loop: false }];
+            let body = g.seq(&mut labels, vec![], &rs, 0);
+            n_ops += body.w.len(); n_calls += g.n_calls; n_funcs += 1;
+            coq_funcs.push(format!("({}, [{}], [{}])", ftys[fi], locals.iter().map(|x| coq_vt(*x)).collect::<Vec<_>>().join("; "), body.c.join("; ")));
+            bodies.push(body.w); }
+        let mut m = we::Module::new();
+        let mut t = we::TypeSection::new(); for (p, q) in sigs.iter().chain(btys.iter()) { t.function(p.iter().map(|x| vt(*x)), q.iter().map(|x| vt(*x))); } m.section(&t);
+        let mut f = we::FunctionSection::new(); for fi in 0..nf { f.function(ftys[fi] as u32); } m.section(&f);
+        let mut tb = we::TableSection::new(); tb.table(we::TableType { element_type: we::RefType::FUNCREF, table64: false, minimum: table_len as u64, maximum: Some(table_len as u64), shared: false }); m.section(&tb);
+        let mut ms = we::MemorySection::new(); ms.memory(we::MemoryType { minimum: 1, maximum: Some(3), memory64: false, shared: false, page_size_log2: None }); m.section(&ms);
+        let g0 = *r.pick(&[0i32, 5, -3]); let g1 = *r.pick(&[0i64, 9, -1]);
+        let mut gs = we::GlobalSection::new();
+        gs.global(we::GlobalType { val_type: we::ValType::I32, mutable: true, shared: false }, &we::ConstExpr::i32_const(g0));
+        gs.global(we::GlobalType { val_type: we::ValType::I64, mutable: true, shared: false }, &we::ConstExpr::i64_const(g1));
+        gs.global(we::GlobalType { val_type: we::ValType::I32, mutable: false, shared: false }, &we::ConstExpr::i32_const(7));
+        m.section(&gs);
+        let mut e = we::ExportSection::new(); for fi in 0..nf { e.export(&format!("f{}", fi), we::ExportKind::Func, fi as u32); } e.export("g0", we::ExportKind::Global, 0); e.export("g1", we::ExportKind::Global, 1); e.export("m", we::ExportKind::Memory, 0); m.section(&e);
+        let mut el = we::ElementSection::new(); el.active(Some(0), &we::ConstExpr::i32_const(0), we::Elements::Functions(&order)); m.section(&el);
+        let mut c = we::CodeSection::new(); for b in &bodies { let mut wf = we::Function::new(locals.iter().map(|x| (1u32, vt(*x)))); for i in b { wf.instruction(i); } wf.instruction(&I::End); c.function(&wf); } m.section(&c);
+        let wasm = m.finish();
+        if let Err(e) = crate::amod::validate(&wasm, crate::env::walrus_features(false)) { if std::env::var("VH_DEBUG").is_ok() { eprintln!("invalid generated module {}: {}", k, e); } n_fail += 1; continue; }
+        let out = match catch(|| { let mut c = walrus::ModuleConfig::new(); c.generate_producers_section(false); c.parse(&wasm).map(|mut m| m.emit_wasm()).map_err(|e| e.to_string()) }) { Some(Ok(o)) => o, _ => { n_fail += 1; continue } };
+        let id = format!("{:05}", k);
+        std::fs::write(format!("{}/{}.in.wasm", dir, id), &wasm).unwrap(); std::fs::write(format!("{}/{}.out.wasm", dir, id), &out).unwrap();
+        // calls: every function, two argument vectors each
+        let mut calls = vec![];
+        for fi in 0..nf { for _ in 0..2 { let a: Vec<Json> = sigs[ftys[fi]].0.iter().map(|t| match t {
+                T::I32 => Json::obj(vec![("t", Json::s("i32")), ("v", Json::s((*r.pick(&[0i32, 1, 2, 3, -1, 7, 100, i32::MAX, i32::MIN])).to_string()))]),
+                T::I64 => Json::obj(vec![("t", Json::s("i64")), ("v", Json::s((*r.pick(&[0i64, 1, -1, 5, 1 << 33, i64::MAX, i64::MIN])).to_string()))]) }).collect();
+            calls.push(Json::obj(vec![("f", Json::u(fi)), ("args", Json::Arr(a))])); } }
+        let tys_coq = format!("[{}]", sigs.iter().chain(btys.iter()).map(|(p, q)| format!("([{}], [{}])", p.iter().map(|x| coq_vt(*x)).collect::<Vec<_>>().join("; "), q.iter().map(|x| coq_vt(*x)).collect::<Vec<_>>().join("; "))).collect::<Vec<_>>().join("; "));
+        index.push(Json::obj(vec![("id", Json::s(id)), ("calls", Json::Arr(calls)), ("g0", Json::s(g0.to_string())), ("g1", Json::s(g1.to_string())), ("tys", Json::s(tys_coq)),
+            ("funcs", Json::s(format!("[{}]", coq_funcs.join("; ")))), ("table", Json::s(format!("[{}; None]", order.iter().map(|x| format!("Some {}", x)).collect::<Vec<_>>().join("; "))))]));
+    }
+    std::fs::write(format!("{}/index.json", dir), Json::obj(vec![("cases", Json::Arr(index)), ("operators", Json::u(n_ops)), ("call_sites", Json::u(n_calls)), ("functions", Json::u(n_funcs)), ("failures", Json::u(n_fail))]).to_string()).unwrap();
 }
